@@ -2267,7 +2267,10 @@ func (r *runner) converge(w *world, cfg Cfg, now *int64, settle func(int, int64)
 	// per item: the cycle by which it must have been dealt with, fixed when it is first seen needing attention
 	// (sweeps take the oldest rows first, `batch` per cycle; the five sweeps take turns when the pool is small: factor 5)
 	promDue, lockDue, taskDue := map[string]int{}, map[string]int{}, map[string]int{}
-	schedLag := map[string][2]int64{} // id -> (round first seen behind, lag then)
+	schedLag := map[string][2]int64{}    // id -> (round first seen behind, lag then) — kept for the verdict bookkeeping of single schedules
+	schedOldest := map[string][2]int64{} // id of the oldest lagging schedule -> (round first seen as such, its next run time then)
+	schedBacklog := [2]int64{0, 0}       // (round, missed occurrences) when the backlog was first measured
+	schedNeed := 0
 	rounds := 0
 	for round := 0; ; round++ {
 		// one cycle of the idle loop: the clock advances by the signal timeout, then the loop keeps ticking at once
@@ -2293,6 +2296,40 @@ func (r *runner) converge(w *world, cfg Cfg, now *int64, settle func(int, int64)
 			if rounds > 60 {
 				rounds = 60
 			}
+		}
+		// F2 in action: a pending promise past its timeout has a registration whose id is the id of a task that exists already, so
+		// its completion block fails on the task insert — in the sweep too, and with it the whole store batch the block is in:
+		// whatever else is written in that batch (other time-outs, lease resets, firings) fails with it, cycle after cycle
+		f2Active := false
+		{
+			taskIds := map[string]bool{}
+			for _, y := range list("tasks") {
+				taskIds[fmt.Sprint(y.(map[string]any)["id"])] = true
+			}
+			overdue := map[string]bool{}
+			for _, x := range list("promises") {
+				p := x.(map[string]any)
+				if num(p["state"]) == 1 && num(p["timeout"]) <= t {
+					overdue[fmt.Sprint(p["id"])] = true
+				}
+			}
+			for _, y := range list("callbacks") {
+				cb := y.(map[string]any)
+				if overdue[fmt.Sprint(cb["promiseId"])] && taskIds[fmt.Sprint(cb["id"])] {
+					f2Active = true
+				}
+			}
+		}
+		f2Collateral := func(what string) (M, bool, bool) {
+			if !f2Active {
+				return nil, false, false
+			}
+			if known["F2"] {
+				r.counts["known:F2-collateral"]++
+				return nil, false, true
+			}
+			return M{"what": "property monitor failed on the implementation", "property": "C11", "finding": "F2",
+				"diff": what + ": it shares its store batch with the completion block of a promise whose registration collides with an existing task id; that block fails on the task insert and takes the batch with it, every cycle", "property_violation": true}, false, true
 		}
 		// promises
 		overdueNow := 0
@@ -2334,7 +2371,14 @@ func (r *runner) converge(w *world, cfg Cfg, now *int64, settle func(int, int64)
 							"diff":               fmt.Sprintf("promise %s is still pending at clock %d (cycle %d of the idle server), its timeout was %d: its registration %s has the id of an existing task, so every completion of the promise fails on the task insert", id, t, round, num(p["timeout"]), collides),
 							"property_violation": true}, false
 					}
-					return viol(fmt.Sprintf("promise %s is still pending at clock %d (cycle %d of the idle server), its timeout was %d; %d promises were overdue when it was first seen, batch size %d", id, t, round, num(p["timeout"]), overdueNow, cfg.PromiseBatchSize))
+					what := fmt.Sprintf("promise %s is still pending at clock %d (cycle %d of the idle server), its timeout was %d; %d promises were overdue when it was first seen, batch size %d", id, t, round, num(p["timeout"]), overdueNow, cfg.PromiseBatchSize)
+					if info, pred, hit := f2Collateral(what); hit {
+						if info != nil {
+							return info, pred
+						}
+						continue
+					}
+					return viol(what)
 				}
 			}
 		}
@@ -2382,6 +2426,8 @@ func (r *runner) converge(w *world, cfg Cfg, now *int64, settle func(int, int64)
 			}
 			accrual += float64(runEvery) / float64(p2)
 		}
+		lagging := [][3]int64{} // (next run time, missed occurrences, -)
+		laggingIds := []string{}
 		for _, x := range list("schedules") {
 			sc := x.(map[string]any)
 			id := fmt.Sprint(sc["id"])
@@ -2425,16 +2471,65 @@ func (r *runner) converge(w *world, cfg Cfg, now *int64, settle func(int, int64)
 					"diff":               fmt.Sprintf("schedule %s (cron %v, period %d ms, signal timeout %d ms, scheduler queue %d, schedule batch size %d, %.2f occurrences falling due per run) is %d ms behind the clock and cannot catch up: one occurrence per schedule is fired per run of SchedulePromises", id, sc["cron"], p, dt, cfg.CoroutineMaxSize, cfg.ScheduleBatchSize, accrual, lagv),
 					"property_violation": true}, false
 			}
-			first, ok := schedLag[id]
-			if !ok {
-				schedLag[id] = [2]int64{int64(round), lagv}
-				// the idle phase lasts long enough to give a verdict on this schedule
-				if rounds < round+13 && round+13 <= 90 {
-					rounds = round + 13
+			lagging = append(lagging, [3]int64{num(sc["nextRunTime"]), lagv / p, 0})
+			laggingIds = append(laggingIds, id)
+		}
+		// schedules that CAN catch up (occurrences fall due more slowly than a run fires them): a run fires the schedules with the
+		// oldest next run times first, so (A) the oldest lagging schedule advances at the next run, and (B) the backlog —
+		// missed occurrences over all lagging schedules — shrinks at the rate (fired per run − falling due per run).  A fixed
+		// per-schedule window would be wrong: with a batch of one a schedule waits until the older ones have caught up with it
+		if len(lagging) > 0 {
+			oldest, backlog := 0, int64(0)
+			for i, l := range lagging {
+				backlog += l[1]
+				if l[0] < lagging[oldest][0] {
+					oldest = i
 				}
-			} else if int64(round)-first[0] >= 12 && lagv >= first[1] {
-				return viol(fmt.Sprintf("schedule %s (period %d ms) was %d ms behind at cycle %d and is %d ms behind at cycle %d of the idle server: it does not catch up", id, p, first[1], first[0], lagv, round))
 			}
+			if info, pred, hit := f2Collateral(fmt.Sprintf("schedule %s is %d occurrences behind", laggingIds[oldest], lagging[oldest][1])); hit {
+				if info != nil {
+					return info, pred
+				}
+			} else {
+				oid := laggingIds[oldest]
+				// (A)
+				if prev, ok := schedOldest[oid]; ok && prev[1] == lagging[oldest][0] {
+					if int64(round)-prev[0] > 3*runEvery/dt+3 {
+						return viol(fmt.Sprintf("schedule %s has the oldest next run time (%d) of all schedules and has not advanced for %d cycles of the idle server", oid, lagging[oldest][0], int64(round)-prev[0]))
+					}
+				} else {
+					schedOldest = map[string][2]int64{oid: {int64(round), lagging[oldest][0]}}
+				}
+				// (B)
+				capPerRun := float64(cfg.ScheduleBatchSize - stuck)
+				if n := float64(len(lagging)); n < capPerRun {
+					capPerRun = n
+				}
+				gain := (capPerRun - accrual) * float64(dt) / float64(runEvery) // backlog reduction per cycle
+				if schedBacklog[0] == 0 && schedBacklog[1] == 0 {
+					schedBacklog = [2]int64{int64(round), backlog}
+					// long enough to see the backlog shrink by more than the rounding of one occurrence per schedule
+					if gain > 0 {
+						need := int(float64(len(lagging)+3)/gain) + 4
+						if need > 90 {
+							need = 0 // no verdict within the phase: not checked
+							r.counts["schedule_backlog_unchecked"]++
+						}
+						schedNeed = need
+						if need > 0 && rounds < round+need+1 && round+need+1 <= 100 {
+							rounds = round + need + 1
+						}
+					}
+				} else if schedNeed > 0 && int64(round)-schedBacklog[0] >= int64(schedNeed) && backlog >= schedBacklog[1] {
+					return viol(fmt.Sprintf("the schedules were %d occurrences behind at cycle %d and are %d behind at cycle %d of the idle server (batch size %d, %.2f occurrences falling due per run): the backlog does not shrink", schedBacklog[1], schedBacklog[0], backlog, round, cfg.ScheduleBatchSize, accrual))
+				} else if schedNeed > 0 && int64(round)-schedBacklog[0] >= int64(schedNeed) {
+					r.counts["schedule_backlog_shrank"]++
+					schedBacklog = [2]int64{0, 0}
+				}
+			}
+		} else {
+			schedBacklog = [2]int64{0, 0}
+			schedOldest = map[string][2]int64{}
 		}
 		// enqueued / claimed tasks past their lease or timeout (skipped when the enqueue delay is shorter than a cycle:
 		// a re-dispatched task is then late again at once and the batch order is by root)
@@ -2453,7 +2548,35 @@ func (r *runner) converge(w *world, cfg Cfg, now *int64, settle func(int, int64)
 					if due, ok := taskDue[id]; !ok {
 						taskDue[id] = round + 5*ceil(lateNow, cfg.TaskBatchSize) + 6
 					} else if round > due {
-						return viol(fmt.Sprintf("task %s (state %d) is still past its lease %d / timeout %d at clock %d (cycle %d of the idle server); %d tasks were late when it was first seen, batch size %d", id, st, num(tk["expiresAt"]), num(tk["timeout"]), t, round, lateNow, cfg.TaskBatchSize))
+						what := fmt.Sprintf("task %s (state %d) is still past its lease %d / timeout %d at clock %d (cycle %d of the idle server); %d tasks were late when it was first seen, batch size %d", id, st, num(tk["expiresAt"]), num(tk["timeout"]), t, round, lateNow, cfg.TaskBatchSize)
+						if info, pred, hit := f2Collateral(what); hit {
+							if info != nil {
+								return info, pred
+							}
+							continue
+						}
+						// F19: the lease sweep reads its batch ORDER BY root_promise_id, sort_id.  Unclaimed tasks are re-dispatched after
+						// every reset and are late again one enqueue delay later; when at least TaskBatchSize of them come earlier in that
+						// order, they fill every batch and this task is never reached
+						ahead := 0
+						for _, y := range list("tasks") {
+							u := y.(map[string]any)
+							if us := num(u["state"]); (us == 1 || us == 2) && fmt.Sprint(u["id"]) != fmt.Sprint(tk["id"]) {
+								ur, tr := fmt.Sprint(u["rootPromiseId"]), fmt.Sprint(tk["rootPromiseId"])
+								if ur < tr || (ur == tr && num(u["sortId"]) < num(tk["sortId"])) {
+									ahead++
+								}
+							}
+						}
+						if ahead >= cfg.TaskBatchSize {
+							if known["F19"] {
+								r.counts["known:F19"]++
+								continue
+							}
+							return M{"what": "property monitor failed on the implementation", "property": "C11", "finding": "F19",
+								"diff": what + fmt.Sprintf(": %d unclaimed tasks come before it in the lease sweep's order (root promise id, sort id) and keep filling its batch", ahead), "property_violation": true}, false
+						}
+						return viol(what)
 					}
 				}
 			}
@@ -2473,8 +2596,8 @@ func (r *runner) shrink(cfg Cfg, bg bool, steps []Step, wantPredicted bool) []St
 		i, info, pred := r.replayScript(cfg, bg, s)
 		return i >= 0 && info["harness"] == nil && pred == wantPredicted
 	}
-	if i, _, _ := r.replayScript(cfg, bg, steps); i >= 0 {
-		steps = steps[:i+1]
+	if i, _, _ := r.replayScript(cfg, bg, steps); i >= 0 && i < len(steps) {
+		steps = steps[:i+1] // (a failure in the convergence phase is reported at index len(steps): nothing to cut)
 	}
 	units := func(ss []Step) [][]Step {
 		var out [][]Step
